@@ -433,8 +433,11 @@ func (a updateConnectorAction) update(ctx context.Context, cfg config.Connector)
 
 	// update processor IDs
 	if !a.isEqual(c.ProcessorIDs, cfg.Processors) {
-		// recreate all processor IDs
-		for _, procID := range c.ProcessorIDs {
+		// recreate all processor IDs; removing a processor shifts the
+		// instance's list in place, so iterate over a copy of it
+		procIDs := make([]string, len(c.ProcessorIDs))
+		_ = copy(procIDs, c.ProcessorIDs)
+		for _, procID := range procIDs {
 			_, err = a.connectorService.RemoveProcessor(ctx, cfg.ID, procID)
 			if err != nil {
 				return cerrors.Errorf("failed to remove processor %v: %w", procID, err)
